@@ -258,10 +258,19 @@ DERIV(trajpoly7, a_trajpoly7, 8,
 #define DM 4
 #endif
 #define SMALLINT(name) ND(int, name, int); ASSUME(-(DM) <= name && name <= (DM))
+/* TSCALE: durations far from 1 (TS = 2^-60 or 2^60): velocities, accelerations and jerks are scaled by 1/TS, 1/TS^2, 1/TS^3, which
+   multiplies every intermediate of the TS = 1 computation by a power of two - the domain stays exact */
+#ifdef TSCALE
+#define VS (1 / (a_real)(TS))
+#else
+#define VS 1
+#endif
+#define AS (VS * VS)
+#define JS (VS * VS * VS)
 void h_tp3_final(void)
 {
     SMALLINT(ip0); SMALLINT(ip1); SMALLINT(iv0); SMALLINT(iv1);
-    a_real const ts = TS, p0 = ip0, p1 = ip1, v0 = iv0, v1 = iv1;
+    a_real const ts = TS, p0 = ip0, p1 = ip1, v0 = iv0 * VS, v1 = iv1 * VS;
     a_trajpoly3 t;
     a_trajpoly3_gen(&t, ts, p0, p1, v0, v1);
     ASSERT(a_trajpoly3_pos(&t, ts) == p1, "trajpoly3: the position at the end time is the requested final position (exact domain)");
@@ -271,7 +280,7 @@ void h_tp3_final(void)
 void h_tp5_final(void)
 {
     SMALLINT(ip0); SMALLINT(ip1); SMALLINT(iv0); SMALLINT(iv1); SMALLINT(ia0); SMALLINT(ia1);
-    a_real const ts = TS, p0 = ip0, p1 = ip1, v0 = iv0, v1 = iv1, a0 = ia0, a1 = ia1;
+    a_real const ts = TS, p0 = ip0, p1 = ip1, v0 = iv0 * VS, v1 = iv1 * VS, a0 = ia0 * AS, a1 = ia1 * AS;
     a_trajpoly5 t;
     a_trajpoly5_gen(&t, ts, p0, p1, v0, v1, a0, a1);
     ASSERT(a_trajpoly5_pos(&t, ts) == p1, "trajpoly5: the position at the end time is the requested final position (exact domain)");
@@ -282,7 +291,7 @@ void h_tp5_final(void)
 void h_tp7_final(void)
 {
     SMALLINT(ip0); SMALLINT(ip1); SMALLINT(iv0); SMALLINT(iv1); SMALLINT(ia0); SMALLINT(ia1); SMALLINT(ij0); SMALLINT(ij1);
-    a_real const ts = TS, p0 = ip0, p1 = ip1, v0 = iv0, v1 = iv1, a0 = ia0, a1 = ia1, j0 = 3 * ij0, j1 = 3 * ij1;
+    a_real const ts = TS, p0 = ip0, p1 = ip1, v0 = iv0 * VS, v1 = iv1 * VS, a0 = ia0 * AS, a1 = ia1 * AS, j0 = 3 * ij0 * JS, j1 = 3 * ij1 * JS;
     a_trajpoly7 t;
     a_trajpoly7_gen(&t, ts, p0, p1, v0, v1, a0, a1, j0, j1);
     ASSERT(a_trajpoly7_pos(&t, ts) == p1, "trajpoly7: the position at the end time is the requested final position (exact domain)");
